@@ -1,5 +1,6 @@
 /* LD_PRELOAD fault-injection seam for native replay (no change to /repo): selected libc calls fail while an
  * environment variable is set.  The replay runner toggles the variables between operations.
+ *   (value 1 = always, value s<K> = after K successful calls)
  *   WALRUS_FAULT_FSYNC=1   fsync / fdatasync fail with EIO
  *   WALRUS_FAULT_CREATE=1  open / openat / creat with O_CREAT fail with EACCES
  *   WALRUS_FAULT_RENAME=1  rename / renameat fail with EIO                                                     */
@@ -11,7 +12,18 @@
 #include <stdlib.h>
 #include <sys/types.h>
 
-static int on(const char *name) { const char *v = getenv(name); return v && v[0] == '1'; }
+#include <string.h>
+/* value "1": every call fails; value "s<K>": the first K calls after the variable got this value succeed, later ones fail */
+static int on(const char *name) {
+    static char last[3][32]; static long seen[3];
+    const char *v = getenv(name);
+    int slot = name[13] == 'F' ? 0 : name[13] == 'C' ? 1 : 2;   /* WALRUS_FAULT_<F|C|R>... */
+    if (!v) { last[slot][0] = 0; return 0; }
+    if (v[0] == '1') return 1;
+    if (v[0] != 's') return 0;
+    if (strncmp(last[slot], v, 31) != 0) { strncpy(last[slot], v, 31); seen[slot] = 0; }
+    return seen[slot]++ >= atol(v + 1);
+}
 
 int fsync(int fd) {
     static int (*real)(int) = 0;
